@@ -354,18 +354,28 @@ func sameNameLabelFamily() []*peg.Grammar {
 	terms := []func() *peg.Expr{func() *peg.Expr { return lit("a") }, func() *peg.Expr { return peg.Cls(false, false, "a", "b") }, func() *peg.Expr { return lit("b") }}
 	for _, t := range terms {
 		for _, u := range terms {
+			leafShape := 0
 			leaf := func() *peg.Rule {
-				return &peg.Rule{Name: "L", Expr: peg.Action(0, peg.Seq(peg.Label("x", u()), peg.Label("y", peg.Opt(lit("c")))))}
+				inner := peg.Seq(peg.Label("x", u()), peg.Label("y", peg.Opt(lit("c"))))
+				switch leafShape {
+				case 1: // labels directly under a recovery operator (it opens no scope at run time)
+					return &peg.Rule{Name: "L", Expr: peg.Action(0, peg.Recover(inner, peg.Label("x", lit("c")), "l"))}
+				case 2: // no action of its own
+					return &peg.Rule{Name: "L", Expr: peg.Seq(inner, peg.AndCode(0))}
+				}
+				return &peg.Rule{Name: "L", Expr: peg.Action(0, inner)}
 			}
-			for _, body := range []*peg.Expr{
-				peg.Action(0, peg.Seq(peg.Label("x", t()), peg.Ref("L"), peg.Label("z", peg.Opt(lit("b"))))),
-				peg.Action(0, peg.Seq(peg.Ref("L"), peg.Label("x", t()))),
-				peg.Action(0, peg.Seq(peg.Label("x", t()), peg.Star(peg.Ref("L")), peg.Label("y", peg.Opt(lit("a"))))),
-				peg.Action(0, peg.Seq(peg.Label("y", t()), peg.Ref("L"), peg.Ref("L"))),
-				peg.Action(0, peg.Seq(peg.Label("x", t()), peg.Label("w", peg.Ref("L")), peg.AndCode(0))),
-				peg.Choice(peg.Action(0, peg.Seq(peg.Label("x", t()), peg.Ref("L"), lit("c"))), peg.Action(0, peg.Seq(peg.Label("x", t()), peg.Ref("L")))),
-			} {
-				out = append(out, &peg.Grammar{Rules: []*peg.Rule{{Name: "S", Expr: body.Clone()}, leaf()}})
+			for leafShape = 0; leafShape < 3; leafShape++ {
+				for _, body := range []*peg.Expr{
+					peg.Action(0, peg.Seq(peg.Label("x", t()), peg.Ref("L"), peg.Label("z", peg.Opt(lit("b"))))),
+					peg.Action(0, peg.Seq(peg.Ref("L"), peg.Label("x", t()))),
+					peg.Action(0, peg.Seq(peg.Label("x", t()), peg.Star(peg.Ref("L")), peg.Label("y", peg.Opt(lit("a"))))),
+					peg.Action(0, peg.Seq(peg.Label("y", t()), peg.Ref("L"), peg.Ref("L"))),
+					peg.Action(0, peg.Seq(peg.Label("x", t()), peg.Label("w", peg.Ref("L")), peg.AndCode(0))),
+					peg.Choice(peg.Action(0, peg.Seq(peg.Label("x", t()), peg.Ref("L"), lit("c"))), peg.Action(0, peg.Seq(peg.Label("x", t()), peg.Ref("L")))),
+				} {
+					out = append(out, &peg.Grammar{Rules: []*peg.Rule{{Name: "S", Expr: body.Clone()}, leaf()}})
+				}
 			}
 		}
 	}
